@@ -179,6 +179,17 @@ def _s15(s):
             call(X + 'm'), call(f'N.{X}m'), call(f'N.M.{X}m'), op(ident(L), ident(f'N.M.{L}'))]
 
 
+@skeleton('rep-that-does-not-use-its-iterator', 4, lambda s: s[0] != s[1])
+def _s16(s):
+    P, It, L, X = s
+    # the rep's arguments mention the enclosing macro's parameter but not the iterator; the caller passes a label (also inside an
+    # expression, also two levels up) that may be spelled like that iterator
+    return [mdef('leaf', [X], body=[op(None, I(X)), op(I(X), None)]),
+            mdef('mid', [P], body=[rep(2, It, 'leaf', I(P)), rep(1, It, 'leaf', ('+', I(P), DW)), op(None, I(P))]),
+            mdef('top', [X], body=[call('mid', ('+', I(X), ('*', 2, DW)))]),
+            lab(L), call('mid', I(L)), call('top', I(L)), op(None, I(L))]
+
+
 def programs(pool=POOL):
     """yield (skeleton name, slots, program, collisions) for every well-formed assignment"""
     for name, n, wf, build in SKELETONS:
